@@ -32,7 +32,6 @@ Open Scope nat_scope.
 (* ================================================================ the relation on whole states *)
 (* the environment a call-free expression is evaluated in: its own scopes without the hidden loop counters *)
 Definition strip_sc (sc : scope) : scope := filter (fun kv => negb (str_eqb (fst kv) hid)) sc.
-Definition strip_cap (env : fenv) : fenv := {| locals := map strip_sc (locals env); captured := []; cur := cur env |}.
 Lemma assoc_strip : forall x sc, x <> hid -> assoc x (strip_sc sc) = assoc x sc.
 Proof.
   intros x. induction sc as [|[k v] sc IH]; intros Hx; [reflexivity|]. cbn [strip_sc filter fst assoc].
@@ -57,6 +56,12 @@ Lemma assoc_in_fnames : forall (T : ftab) f (r : list str * list stmt), assoc f 
 Proof.
   intros T f r. unfold fnames. induction T as [|[k0 r0] t IH]; cbn [assoc map fst In]; [discriminate|].
   destruct (str_eqb k0 f) eqn:E; [apply str_eqb_iff in E; intros _; left; exact E|intros H; right; exact (IH H)].
+Qed.
+
+Lemma In_keys_assoc : forall A (sc : list (str * A)) x, In x (map fst sc) -> assoc x sc <> None.
+Proof.
+  intros A. induction sc as [|[k0 v0] t IH]; intros x H; [destruct H|]. cbn [map fst In assoc] in *.
+  destruct (str_eqb k0 x) eqn:E; [discriminate|]. destruct H as [->|H]; [now rewrite str_eqb_refl in E|now apply IH].
 Qed.
 
 Section Base.
@@ -86,6 +91,25 @@ Variable fpins : pinset.
 Hypothesis Hgpv : forall f c c' cenv cbf, assoc f fcells = Some (c, c', cenv, cbf) -> vpin fpins c' (VFun (floc f) cbf).
 Hypothesis Hgps : forall f c c' cenv cbf ps body, assoc f fcells = Some (c, c', cenv, cbf) -> assoc f FT = Some (ps, body) ->
   spin fpins c (RClos ps body cenv).
+(* the DATA variables the activation captures (read by reference): name -> source cell; the VM cells are in cb; the
+   cells hold related values that do not change while the activation runs (they are among the static pins) *)
+Variable cdsc : scope.
+Local Notation CD := (map fst cdsc).
+Hypothesis Hcd : forall x c, assoc x cdsc = Some c ->
+  uname x /\ exists c' v m, cb = Some m /\ assoc x m = Some c' /\ first_order v /\ spin fpins c v /\ vpin fpins c' (inj v).
+(* module level: the data variables captured by some function so far keep their cells (name, source cell, VM cell) *)
+Variable dtab : list (str * (N * N)).
+Hypothesis Hdtab : forall x cc, In (x, cc) dtab -> uname x.
+Definition strip_cap (env : fenv) : fenv := {| locals := map strip_sc (locals env); captured := [cdsc]; cur := cur env |}.
+(* the data cell pairs (source cell, VM cell) a callee needs to hold related values when it is called: for every
+   callable function / for the executing function itself (`self`).  Each pair is a module-level captured binding
+   (dtab) or a pair of statically pinned cells of the activation *)
+Variable fdn : str -> list (N * N).
+Variable sdn : list (N * N).
+Definition dpair_ok (p : N * N) : Prop :=
+  (exists x, In (x, p) dtab) \/ (exists v, first_order v /\ spin fpins (fst p) v /\ vpin fpins (snd p) (inj v)).
+Hypothesis Hdn : forall f p, In f funs -> In p (fdn f) -> dpair_ok p.
+Hypothesis Hsdn : forall p, In p sdn -> dpair_ok p.
 
 Lemma fun_name_neq : forall f x, In f funs -> uname x -> x <> f.
 Proof. intros f x Hf Hx ->. exact (uname_nfun _ Hx Hf). Qed.
@@ -107,7 +131,9 @@ Record Rg (env : fenv) (s : rstate) (g : gstate) : Prop := {
   Rg_flook : forall f c c' cenv cbf, assoc f fcells = Some (c, c', cenv, cbf) ->
              flook cb (captured env) (locals env) (frames g) f c c';
   Rg_cur : cur env = selfv;
-  Rg_cf : current_function (frames g) = Some fnm
+  Rg_cf : current_function (frames g) = Some fnm;
+  Rg_capd : forall x c, assoc x cdsc = Some c -> lookup_scopes x (captured env) = Some c;
+  Rg_dlook : forall x c c', In (x, (c, c')) dtab -> flook None [] (locals env) (frames g) x c c'
 }.
 
 (* between statements: operand stack empty, special_scopes >= number of open blocks *)
@@ -202,7 +228,7 @@ Proof. intros B env env' [H1 H2] E. split; [intros x Hx; rewrite E; now apply H1
 
 Lemma Rg_ext : forall env s g g' d lo hi, Rg env s g -> ext d lo hi g g' -> frames_nd (frames g') -> Rg env s g'.
 Proof.
-  intros env s g g' d lo hi [Hfr Hb Ho Hbase Hun Hns Hpins Hnd Hfp Hfl Hcur Hcf] He Hnd'.
+  intros env s g g' d lo hi [Hfr Hb Ho Hbase Hun Hns Hpins Hnd Hfp Hfl Hcur Hcf Hcapd Hdl] He Hnd'.
   destruct (ext_cells _ _ _ _ _ He) as [extra Ec].
   pose proof (ext_labs _ _ _ _ _ He) as Hl. pose proof (ext_tail _ _ _ _ _ He) as Ht.
   pose proof (ext_find _ _ _ _ _ He) as Hf. pose proof (ext_out _ _ _ _ _ He) as Hout.
@@ -228,6 +254,10 @@ Proof.
     assert (Hin : In f0 funs) by (apply Hfck; congruence). exact (proj1 (Hfun0 f0 Hin)).
   - exact Hcur.
   - cbn [current_function] in *. rewrite Hl. exact Hcf.
+  - exact Hcapd.
+  - intros x0 c0 c0' Hin. cbn [frames] in *. specialize (Hdl x0 c0 c0' Hin).
+    destruct (locals env) as [|sc l] eqn:El; [destruct (Rfr_ne _ _ _ _ Hfr); congruence|].
+    eapply flook_top; [exact Hdl|reflexivity|]. apply Hf. apply own_reg_not_src. exact (uname_src _ (Hdtab _ _ Hin)).
 Qed.
 
 Lemma Rg_ne : forall env s g, Rg env s g -> locals env <> [].
@@ -236,11 +266,26 @@ Proof. intros env s g H. exact (proj1 (Rfr_ne _ _ _ _ (Rg_fr _ _ _ H))). Qed.
 Lemma Rg_drop : forall env s g, Rg env s g -> drop_to_function (frames g) = base.
 Proof. intros env s g H. rewrite (Rfr_drop _ _ _ _ (Rg_fr _ _ _ H)). exact (Rg_base _ _ _ H). Qed.
 
-Lemma Rg_Renv : forall env s a g, Rg env s g -> Renv (strip_cap env) s a g.
+Lemma lookup_app_split : forall x l r, lookup_scopes x (l ++ r) = match lookup_scopes x l with Some c => Some c | None => lookup_scopes x r end.
+Proof. intros x l r. induction l as [|sc l IH]; [reflexivity|]. cbn [app lookup_scopes]. destruct (assoc x sc); [reflexivity|exact IH]. Qed.
+
+Lemma Rg_Renv : forall env s a g, Rg env s g -> a_cb a = cb -> Renv (strip_cap env) s a g.
 Proof.
-  intros env s a g [Hfr _ _ _ Hun _ _ _ Hfp Hfl] x c v _ Hl Hg Hfo. cbn [strip_cap locals captured] in Hl. rewrite app_nil_r in Hl.
-  assert (Hxh : x <> hid) by (intros ->; rewrite lookup_strip_hid in Hl; discriminate).
-  rewrite (lookup_strip x _ Hxh) in Hl.
+  intros env s a g [Hfr _ _ _ Hun _ _ _ Hfp Hfl _ _ _ _] Hacb x c v _ Hl Hg Hfo. cbn [strip_cap locals captured] in Hl.
+  rewrite lookup_app_split in Hl.
+  destruct (lookup_scopes x (map strip_sc (locals env))) as [c1|] eqn:E1.
+  2:{ (* a captured data variable *)
+    cbn [lookup_scopes] in Hl. destruct (assoc x cdsc) as [c2|] eqn:E2; [|discriminate]. inversion Hl; subst c2.
+    destruct (Hcd x c E2) as (Hx & c' & v0 & m & Ecb & Em & Hfo0 & Hs & Hv).
+    destruct Hfp as [F1 F2]. destruct (F1 c' (inj v0) Hv) as [A1 _]. destruct (F2 c v0 Hs) as [A2 _].
+    unfold sget in Hg. rewrite A2 in Hg. inversion Hg; subst v0.
+    rewrite (lookup_strip x _ (uname_not_hid _ Hx)) in E1.
+    pose proof (Rfr_look _ _ _ _ Hfr x Hx) as H. rewrite E1 in H.
+    destruct (find_in_function x (frames g)) as [cz|] eqn:E; [contradiction|].
+    exists c'. split; [unfold lookup_var, load_cb; rewrite E, Hacb, Ecb; exact Em|exact A1]. }
+  inversion Hl; subst c1.
+  assert (Hxn : x <> hid) by (intros ->; rewrite lookup_strip_hid in E1; discriminate).
+  rewrite (lookup_strip x _ Hxn) in E1. rename E1 into Hl'.
   assert (Hx : uname x).
   { destruct (Hun x ltac:(congruence)) as [Hx|[Hx|Hx]]; [exact Hx| |congruence]. exfalso.
     (* a function name: its cell holds a closure, not a first-order value *)
@@ -248,7 +293,7 @@ Proof.
     destruct (assoc x fcells) as [[[[c0 c0'] cenv] cbf]|] eqn:E; [|congruence].
     assert (Hl0 : 0 < length (locals env)) by (destruct (locals env); [discriminate|cbn; lia]).
     destruct (Hfl x c0 c0' cenv cbf E 0 Hl0) as [H1 _]. cbn [skipn] in H1.
-    rewrite (lookup_app_some _ _ (captured env) _ Hl) in H1. inversion H1; subst c0.
+    rewrite (lookup_app_some _ _ (captured env) _ Hl') in H1. inversion H1; subst c0.
     assert (Hft : exists ps body, assoc x FT = Some (ps, body)).
     { clear -Hx. unfold fnames in Hx. induction FT as [|[k [ps body]] t IH]; [destruct Hx|]. cbn [map fst In assoc] in *.
       destruct (str_eqb k x) eqn:Ek; [eexists; eexists; reflexivity|]. destruct Hx as [->|Hx]; [now rewrite str_eqb_refl in Ek|auto]. }
@@ -256,7 +301,7 @@ Proof.
     destruct (proj2 Hfp c (RClos ps body cenv)) as [Hv _].
     { exact (Hgps x c c0' cenv cbf ps body E Hft). }
     unfold sget in Hg. rewrite Hv in Hg. inversion Hg; subst v. exact Hfo. }
-  pose proof (Rfr_look _ _ _ _ Hfr x Hx) as H. rewrite Hl in H.
+  pose proof (Rfr_look _ _ _ _ Hfr x Hx) as H. rewrite Hl' in H.
   destruct (find_in_function x (frames g)) as [c'|] eqn:E; [|contradiction]. cbn [orel] in H.
   destruct H as (v0 & H1 & _ & H2). unfold sget in Hg. rewrite H1 in Hg. inversion Hg; subst v0.
   exists c'. split; [unfold lookup_var; now rewrite E|exact H2].
@@ -294,7 +339,7 @@ Lemma store_rel : forall env s g x v env' s', Rg env s g -> uname x -> first_ord
              tl (frames g') = tl (frames g) /\
              (forall z, z <> x -> find_in_function z (frames g') = find_in_function z (frames g)).
 Proof.
-  intros [l cap cu] [st ro] [cs fs o tr] x v env' s' [Hfr Hb Ho Hbase Hun Hns Hpins Hnd Hfp Hfl] Hx Hfo Ha.
+  intros [l cap cu] [st ro] [cs fs o tr] x v env' s' [Hfr Hb Ho Hbase Hun Hns Hpins Hnd Hfp Hfl Hcur Hcf Hcapd Hdl] Hx Hfo Ha.
   cbn [locals captured store rout cells frames out] in *.
   pose proof (Rfr_look _ _ _ _ Hfr x Hx) as Hl. unfold assign in Ha. unfold store_var.
   cbn [locals frames] in *.
@@ -328,6 +373,11 @@ Proof.
         assert (Hne : f0 <> x) by (intros ->; apply (uname_nfun _ Hx); apply Hfck; congruence).
         eapply flook_top; [exact Hfl|now rewrite assoc_set_other|].
         cbn [find_in_function vars lab]. now rewrite assoc_set_other.
+      * intros x0 c0 c0' Hin. specialize (Hdl x0 c0 c0' Hin).
+        assert (Hne : x0 <> x).
+        { intros ->. destruct (Hdl 0 ltac:(cbn; lia)) as [H1 _]. cbn [skipn] in H1. rewrite app_nil_r in H1. congruence. }
+        eapply flook_top; [exact Hdl|now rewrite assoc_set_other|].
+        cbn [find_in_function vars lab]. now rewrite assoc_set_other.
     + split; [reflexivity|discriminate].
     + intros y. cbn [lookup_scopes]. destruct (list_eq_dec N.eq_dec y x) as [->|Hne].
       * rewrite assoc_set_same. split; [auto|discriminate].
@@ -352,7 +402,7 @@ Qed.
 (* ---------------------------------------------------------------- blocks: push / pop *)
 Lemma push_rel : forall env s g lb, Rg env s g -> special lb = true -> Rg (push_scope env) s (push_frame g lb).
 Proof.
-  intros [l cap cu] [st ro] [cs fs o tr] lb [Hfr Hb Ho Hbase Hun Hns Hpins Hnd Hfp Hfl] Hs.
+  intros [l cap cu] [st ro] [cs fs o tr] lb [Hfr Hb Ho Hbase Hun Hns Hpins Hnd Hfp Hfl Hcur Hcf Hcapd Hdl] Hs.
   constructor; cbn [push_scope push_frame with_frames locals captured store rout cells frames out] in *; try assumption.
   - apply Rfr_push; assumption.
   - apply bij_push; assumption.
@@ -362,6 +412,7 @@ Proof.
   - apply pins_push_; assumption.
   - intros f0 c0 c0' cenv cbf E. apply flook_push; [exact (Hfl _ _ _ _ _ E)|exact (proj1 (Rfr_ne _ _ _ _ Hfr))|exact Hs].
   - cbn [current_function lab]. destruct lb; try discriminate Hs; assumption.
+  - intros x0 c0 c0' Hin. apply flook_push; [exact (Hdl _ _ _ Hin)|exact (proj1 (Rfr_ne _ _ _ _ Hfr))|exact Hs].
 Qed.
 
 Lemma popn_rel : forall m env s g, Rg env s g -> m < length (locals env) ->
@@ -370,7 +421,7 @@ Lemma popn_rel : forall m env s g, Rg env s g -> m < length (locals env) ->
 Proof.
   induction m as [|m IH]; intros env s g HR Hm.
   - exists g. split; [reflexivity|]. split; [|auto]. destruct env, HR. constructor; assumption.
-  - destruct env as [l cap cu], s as [st ro], g as [cs fs o tr]. destruct HR as [Hfr Hb Ho Hbase Hun Hns Hpins Hnd Hfp Hfl Hcur Hcf].
+  - destruct env as [l cap cu], s as [st ro], g as [cs fs o tr]. destruct HR as [Hfr Hb Ho Hbase Hun Hns Hpins Hnd Hfp Hfl Hcur Hcf Hcapd Hdl].
     cbn [locals captured store rout cells frames out] in *.
     destruct l as [|sc l]; [cbn in Hm; lia|]. destruct l as [|sc' l]; [cbn in Hm; lia|].
     destruct fs as [|f fs]; [cbn in Hfr; contradiction|].
@@ -388,6 +439,7 @@ Proof.
       * intros f0 c0 c0' cenv cbf E. eapply flook_pop. exact (Hfl _ _ _ _ _ E).
       * pose proof Hfr as Hfr'. cbn [StmtRel.Rfr] in Hfr'. destruct Hfr' as [_ [Hspf _]].
         cbn [current_function] in Hcf. destruct (lab f); try discriminate Hspf; exact Hcf.
+      * intros x0 c0 c0' Hin. eapply flook_pop. exact (Hdl _ _ _ Hin).
     + cbn [locals length] in *. lia.
     + exists g'. split; [exact E|]. split; [exact HR'|]. auto.
 Qed.
@@ -636,11 +688,13 @@ Section Sim.
   Definition fvals (s : rstate) (g : gstate) : Prop :=
     (forall cy w, vpin fpins cy w -> cell_get g cy = Some w) /\ (forall c0 v, spin fpins c0 v -> sget s c0 = Some v).
 
+  Definition drel (dn : list (N * N)) (s : rstate) (g : gstate) : Prop :=
+    forall c0 c0', In (c0, c0') dn -> exists v, first_order v /\ sget s c0 = Some v /\ cell_get g c0' = Some (inj v).
   Definition callee_ok (fuel : nat) (ps : list str) (body : list stmt) (cenv : list scope) (loc : str)
-             (cbf : option (list (str * N))) : Prop :=
+             (cbf : option (list (str * N))) (dn : list (N * N)) : Prop :=
     forall vs s g1,
       Forall first_order vs -> length vs = length ps ->
-      out g1 = rout s -> frames_nd (frames g1) -> fvals s g1 ->
+      out g1 = rout s -> frames_nd (frames g1) -> fvals s g1 -> drel dn s g1 ->
       match call_clos_ fuel (RClos ps body cenv) vs s with
       | EVal v s' => first_order v /\ exists fuel' g2,
             run_fn fuel' prog loc (map inj vs) cbf g1 = RDone (Some (inj v)) g2 /\ val_keep s s' g1 g2
@@ -653,10 +707,10 @@ Section Sim.
   Definition call_ok (fuel : nat) : Prop :=
     forall f ps body c0 c0' cenv cbf,
       assoc f FT = Some (ps, body) -> assoc f fcells = Some (c0, c0', cenv, cbf) ->
-      callee_ok fuel ps body cenv (floc f) cbf.
+      callee_ok fuel ps body cenv (floc f) cbf (fdn f).
   (* `self(args)`: the executing function itself, with the activation's own captured cells *)
   Definition self_ok (fuel : nat) : Prop :=
-    forall ps body cenv, selfv = Some (RClos ps body cenv) -> callee_ok fuel ps body cenv fnm cb.
+    forall ps body cenv, selfv = Some (RClos ps body cenv) -> callee_ok fuel ps body cenv fnm cb sdn.
 
   Variable FU : nat.
   Hypothesis Hcall : forall fuel', fuel' < FU -> call_ok fuel'.
@@ -766,7 +820,7 @@ Section Sim.
 
   Definition stmt_spec (st : stmt) : Prop :=
     forall pins lr il sl bt ct fuel k a g env s B, fuel <= FU -> lr <= 2 * k ->
-      ok_stmt FT SP il B st = true -> bound_in B env ->
+      ok_stmt FT SP CD il B st = true -> bound_in B env ->
       items_at bt ct k (sitems c lr sl st) -> endok (k + length (sitems c lr sl st)) (is_ret st) ->
       lc_ok il sl bt ct env (k + length (sitems c lr sl st)) ->
       a_ip a = k -> a_cb a = cb -> Rst pins env s a g ->
@@ -777,18 +831,50 @@ Section Sim.
 
   Definition block_spec (l : list stmt) : Prop :=
     forall pins lr il sl bt ct fuel k a g env s B, fuel <= FU -> lr <= 2 * k ->
-      ok_block FT SP il B l = true -> bound_in B env ->
+      ok_block FT SP CD il B l = true -> bound_in B env ->
       items_at bt ct k (bitems c lr sl l) -> endok (k + length (bitems c lr sl l)) (ends_ret l) ->
       lc_ok il sl bt ct env (k + length (bitems c lr sl l)) ->
       a_ip a = k -> a_cb a = cb -> Rst pins env s a g ->
       post pins lr sl bt ct (k + length (bitems c lr sl l)) (after_l B l) env (frames g) a g (exec_block fuel env l s).
 
   (* ---------------------------------------------------------------- expressions (ExprSim.sim_pure) *)
+  (* a variable of an expression: a local of the activation, or a captured data variable *)
+  Definition vsrc (env : fenv) (x : str) : Prop :=
+    uname x /\ (lookup_scopes x (locals env) <> None \/ (lookup_scopes x (locals env) = None /\ assoc x cdsc <> None)).
+  Lemma In_CD_assoc : forall x, In x CD -> assoc x cdsc <> None.
+  Proof. intros x. apply In_keys_assoc. Qed.
+  Lemma vsrc_of : forall B env x, bound_in B env -> uname0 x -> In x (B ++ CD) -> vsrc env x.
+  Proof.
+    intros B env x Hb H0 Hin. apply in_app_or in Hin as [Hin|Hin].
+    - split; [eapply bound_in_uname; eassumption|left; eapply bound_in_look; eassumption].
+    - pose proof (In_CD_assoc x Hin) as Ha. destruct (assoc x cdsc) as [c0|] eqn:E; [|congruence].
+      destruct (Hcd x c0 E) as [Hx _]. split; [exact Hx|].
+      destruct (lookup_scopes x (locals env)) eqn:El; [left; discriminate|right; split; [reflexivity|congruence]].
+  Qed.
+  Lemma vsrc_local : forall env x, uname x -> lookup_scopes x (locals env) <> None -> vsrc env x.
+  Proof. intros env x Hx Hl. split; [exact Hx|left; exact Hl]. Qed.
+
+  (* where the reference semantics finds a variable of an expression, and its (first-order) value *)
+  Lemma vsrc_lookup : forall pins env s g x, Rg pins env s g -> vsrc env x ->
+    exists c0 v, lookup_scopes x (locals env ++ captured env) = Some c0 /\ lookup_scopes x (map strip_sc (locals env) ++ [cdsc]) = Some c0 /\ sget s c0 = Some v /\ first_order v.
+  Proof.
+    intros pins env s g x HR [Hx [Hin|[Hn Hc]]].
+    - destruct (Rg_lookup env s g x HR Hx Hin) as (c0 & c0' & v & E1 & _ & _ & E3 & Hfo & _).
+      exists c0, v. split; [now apply lookup_app_some|]. split; [|auto].
+      apply lookup_app_some. rewrite (lookup_strip x _ (uname_not_hid _ Hx)). exact E1.
+    - destruct (assoc x cdsc) as [c0|] eqn:E; [|congruence].
+      destruct (Hcd x c0 E) as (_ & c' & v & m & _ & _ & Hfo & Hs & _).
+      destruct (Rg_fpin _ _ _ HR) as [_ F2]. destruct (F2 c0 v Hs) as [A2 _].
+      exists c0, v. split; [|split; [|split; [exact A2|exact Hfo]]].
+      + rewrite lookup_app_split, Hn. exact (Rg_capd _ _ _ HR x c0 E).
+      + rewrite lookup_app_split, (lookup_strip x _ (uname_not_hid _ Hx)), Hn. cbn [lookup_scopes]. now rewrite E.
+  Qed.
+
   Lemma expr_run_ext : forall pins e d fuel k a g env s,
     pure e = true -> lits_ok e = true ->
-    (forall x, In x (used_e e) -> uname x /\ lookup_scopes x (locals env) <> None) -> d <= c + length code + 2 ->
+    (forall x, In x (used_e e) -> vsrc env x) -> d <= c + length code + 2 ->
     code_at code k (pcode d e) -> k + length (pcode d e) < length code ->
-    a_ip a = k -> a_ops a = [] -> Rg pins env s g ->
+    a_ip a = k -> a_ops a = [] -> a_cb a = cb -> Rg pins env s g ->
     match eval fuel env e s with
     | EVal v s' => s' = s /\ first_order v /\
                    exists g', xrun prog name code a g (upd a (k + length (pcode d e)) [inj v]) g' /\ Rg pins env s g' /\
@@ -798,23 +884,18 @@ Section Sim.
     | ENoVal _ => False
     end.
   Proof.
-    intros pins e d fuel k a g env s Hp Hl Hu Hd Hc Hend Hip Hops HR.
+    intros pins e d fuel k a g env s Hp Hl Hu Hd Hc Hend Hip Hops Hacb HR.
     set (env0 := strip_cap env).
     assert (Hv : forall x, In x (used_e e) -> var_ok env0 s x).
-    { intros x Hx. destruct (Hu x Hx) as [Hs Hin].
-      destruct (Rg_lookup env s g x HR Hs Hin) as (c0 & c0' & v & E1 & _ & _ & E3 & Hfo & _).
-      split; [exact (uname_src _ Hs)|]. exists c0, v. cbn [env0 strip_cap locals captured]. rewrite app_nil_r.
-      rewrite (lookup_strip x _ (uname_not_hid _ Hs)). auto. }
+    { intros x Hx. destruct (vsrc_lookup pins env s g x HR (Hu x Hx)) as (c0 & v & _ & E2 & E3 & Hfo).
+      split; [exact (uname_src _ (proj1 (Hu x Hx)))|]. exists c0, v. cbn [env0 strip_cap locals captured]. auto. }
     assert (Hag : forall x, In x (used_e e) -> agree env0 s env s x).
-    { intros x Hx. destruct (Hu x Hx) as [Hs Hin].
-      destruct (Rg_lookup env s g x HR Hs Hin) as (c0 & c0' & v & E1 & _ & _ & E3 & _).
-      exists c0, c0, v. cbn [env0 strip_cap locals captured]. rewrite app_nil_r.
-      rewrite (lookup_strip x _ (uname_not_hid _ Hs)). split; [exact E1|]. split; [exact E3|].
-      split; [now apply lookup_app_some|exact E3]. }
+    { intros x Hx. destruct (vsrc_lookup pins env s g x HR (Hu x Hx)) as (c0 & v & E1 & E2 & E3 & _).
+      exists c0, c0, v. cbn [env0 strip_cap locals captured]. auto. }
     destruct (eval_pure_congr e Hp fuel env0 s env s Hag) as [Hst0 Ecg]. rewrite Ecg.
     assert (Hsm : small (d + length (pcode d e) + 3)) by (eapply small_le; [|exact Hsmall]; lia).
     assert (Hfr : frames g <> []) by (destruct (Rfr_ne _ _ _ _ (Rg_fr _ _ _ HR)); assumption).
-    pose proof (sim_pure name code e Hp d fuel k a g env0 s Hl Hv Hsm Hc Hend Hip Hops Hfr (Rg_Renv env s a g HR)) as H.
+    pose proof (sim_pure name code e Hp d fuel k a g env0 s Hl Hv Hsm Hc Hend Hip Hops Hfr (Rg_Renv env s a g HR Hacb)) as H.
     destruct (eval fuel env0 e s) as [v s1|s1|f s1|]; cbn [sim_post res_to] in H |- *; [|contradiction| |exact Logic.I].
     - destruct H as (-> & Hfo & g' & R). split; [reflexivity|]. split; [exact Hfo|]. exists g'. split.
       + eapply run_ok_xrun. exact R.
@@ -828,9 +909,9 @@ Section Sim.
 
   Lemma expr_run_gen : forall pins e d fuel k a g env s,
     pure e = true -> lits_ok e = true ->
-    (forall x, In x (used_e e) -> uname x /\ lookup_scopes x (locals env) <> None) -> d <= c + length code + 2 ->
+    (forall x, In x (used_e e) -> vsrc env x) -> d <= c + length code + 2 ->
     code_at code k (pcode d e) -> k + length (pcode d e) < length code ->
-    a_ip a = k -> a_ops a = [] -> Rg pins env s g ->
+    a_ip a = k -> a_ops a = [] -> a_cb a = cb -> Rg pins env s g ->
     match eval fuel env e s with
     | EVal v s' => s' = s /\ first_order v /\
                    exists g', xrun prog name code a g (upd a (k + length (pcode d e)) [inj v]) g' /\ Rg pins env s g' /\
@@ -840,17 +921,17 @@ Section Sim.
     | ENoVal _ => False
     end.
   Proof.
-    intros pins e d fuel k a g env s Hp Hl Hu Hd Hc Hend Hip Hops HR.
-    pose proof (expr_run_ext pins e d fuel k a g env s Hp Hl Hu Hd Hc Hend Hip Hops HR) as H.
+    intros pins e d fuel k a g env s Hp Hl Hu Hd Hc Hend Hip Hops Hacb HR.
+    pose proof (expr_run_ext pins e d fuel k a g env s Hp Hl Hu Hd Hc Hend Hip Hops Hacb HR) as H.
     destruct (eval fuel env e s) as [v s1|s1|f s1|]; try exact H.
     destruct H as (-> & Hfo & g' & R & HG & He). split; [reflexivity|]. split; [exact Hfo|]. exists g'.
     split; [exact R|]. split; [exact HG|]. split; [exact (ext_tail _ _ _ _ _ He)|exact (lkeepA_ext _ _ _ _ _ He)].
   Qed.
 
   Lemma expr_run : forall pins e d fuel k a g env s B,
-    ok_expr B e = true -> bound_in B env -> d <= S c ->
+    ok_expr (B ++ CD) e = true -> bound_in B env -> d <= S c ->
     code_at code k (pcode d e) -> k + length (pcode d e) < length code ->
-    a_ip a = k -> a_ops a = [] -> Rg pins env s g ->
+    a_ip a = k -> a_ops a = [] -> a_cb a = cb -> Rg pins env s g ->
     match eval fuel env e s with
     | EVal v s' => s' = s /\ first_order v /\
                    exists g', xrun prog name code a g (upd a (k + length (pcode d e)) [inj v]) g' /\ Rg pins env s g' /\
@@ -860,10 +941,10 @@ Section Sim.
     | ENoVal _ => False
     end.
   Proof.
-    intros pins e d fuel k a g env s B Hok Hb Hd Hc Hend Hip Hops HR.
+    intros pins e d fuel k a g env s B Hok Hb Hd Hc Hend Hip Hops Hacb HR.
     apply ok_expr_parts in Hok as (Hp & Hl & Hu).
     apply expr_run_gen; try assumption; try lia.
-    intros x Hx. destruct (Hu x Hx) as [Hs Hin]. split; [eapply bound_in_uname; eassumption|eapply bound_in_look; eassumption].
+    intros x Hx. destruct (Hu x Hx) as [Hs Hin]. eapply vsrc_of; eassumption.
   Qed.
 
   (* the failing-expression case of every statement *)
@@ -999,7 +1080,7 @@ Section Sim.
                    out := out g; trace := trace g |} in
       bind_local g y w = Some g' /\ Rg (add_vpin pins cn w) env s g'.
   Proof.
-    intros pins [l cap cu] [st ro] [cs fs o tr] y w [Hfr Hb Ho Hbase Hun Hns Hpins Hnd Hfp Hfl] Hy.
+    intros pins [l cap cu] [st ro] [cs fs o tr] y w [Hfr Hb Ho Hbase Hun Hns Hpins Hnd Hfp Hfl Hcur Hcf Hcapd Hdl] Hy.
     cbn [locals captured store rout cells frames out trace] in *.
     destruct fs as [|f fs]; [destruct (Rfr_ne _ _ _ _ Hfr); congruence|].
     exists f, fs. split; [reflexivity|]. cbv zeta. split; [reflexivity|].
@@ -1022,6 +1103,10 @@ Section Sim.
       destruct l as [|sc l]; [destruct (Rfr_ne _ _ _ _ Hfr); congruence|].
       eapply flook_top; [exact Hfl|reflexivity|]. cbn [find_in_function f' vars lab].
       rewrite assoc_set_other; [reflexivity|]. intros ->. apply Hy. apply Hfun0. apply Hfck. congruence.
+    - intros x0 c0 c0' Hin. specialize (Hdl x0 c0 c0' Hin).
+      destruct l as [|sc l]; [destruct (Rfr_ne _ _ _ _ Hfr); congruence|].
+      eapply flook_top; [exact Hdl|reflexivity|]. cbn [find_in_function f' vars lab].
+      rewrite assoc_set_other; [reflexivity|]. intros ->. exact (Hy (proj1 (Hdtab _ _ Hin))).
   Qed.
 
   Lemma Rg_weaken_pin : forall pins pc pw env s g, Rg (add_vpin pins pc pw) env s g -> Rg pins env s g.
@@ -1035,9 +1120,10 @@ Section Sim.
     Rg (add_vpin pins pc pw) env s g -> locals env = sc :: l -> frames g = f :: fs -> uname x ->
     (forall y, uname0 y -> y <> x -> assoc y vs = assoc y (vars f)) -> assoc x vs = None ->
     assoc x (assoc_del x sc) = None -> lookup_scopes x l = None -> keys_nd vs ->
+    (forall x0 cc, In (x0, cc) dtab -> x0 <> x) ->
     Rg pins (undeclare env x) s (with_frames g ({| lab := lab f; vars := vs |} :: fs)).
   Proof.
-    intros pins pc pw [l0 cap cu] [st ro] [cs fs0 o tr] x sc l f fs vs [Hfr Hb Ho Hbase Hun Hns Hpins Hnd Hfp Hfl] El Ef Hx Hvs Hxv Hxs Hxl Hndv.
+    intros pins pc pw [l0 cap cu] [st ro] [cs fs0 o tr] x sc l f fs vs [Hfr Hb Ho Hbase Hun Hns Hpins Hnd Hfp Hfl Hcur Hcf Hcapd Hdl] El Ef Hx Hvs Hxv Hxs Hxl Hndv Hdx.
     cbn [locals captured store rout cells frames out trace] in *. subst l0 fs0.
     unfold undeclare. cbn [locals captured cur with_frames frames cells out].
     (* lookups of every user name other than x are unchanged on both sides; x is unbound on both sides *)
@@ -1073,6 +1159,9 @@ Section Sim.
       assert (Hne : f0 <> x) by (intros ->; exact (uname_nfun _ Hx Hin)).
       eapply flook_top; [exact Hfl|now rewrite assoc_del_other|].
       cbn [find_in_function vars lab]. now rewrite (Hvs f0 (Hfun0 f0 Hin) Hne).
+    - intros x0 c0 c0' Hin. specialize (Hdl x0 c0 c0' Hin). pose proof (Hdx _ _ Hin) as Hne.
+      eapply flook_top; [exact Hdl|now rewrite assoc_del_other|].
+      cbn [find_in_function vars lab]. now rewrite (Hvs x0 (proj1 (Hdtab _ _ Hin)) Hne).
   Qed.
 
   (* ================================================================ calls: argument registers *)
@@ -1196,23 +1285,23 @@ Section Sim.
 
   Definition rhs_spec (e : expr) : Prop :=
     forall pins d fuel k a g env s B,
-    fuel <= FU -> ok_rhs FT SP B e = true -> bound_in B env -> d + length (xcode d e) <= c + length code + 2 ->
+    fuel <= FU -> ok_rhs FT SP (B ++ CD) e = true -> bound_in B env -> d + length (xcode d e) <= c + length code + 2 ->
     code_at code k (xcode d e) -> k + length (xcode d e) < length code ->
     a_ip a = k -> a_cb a = cb -> a_ops a = [] -> Rg pins env s g ->
     rhs_res pins env d (k + length (xcode d e)) a g (eval fuel env e s).
 
   (* a call-free expression *)
   Lemma rhs_pure : forall e pins d fuel k a g env s B,
-    ok_expr B e = true -> bound_in B env -> d + length (pcode d e) <= c + length code + 2 ->
+    ok_expr (B ++ CD) e = true -> bound_in B env -> d + length (pcode d e) <= c + length code + 2 ->
     code_at code k (pcode d e) -> k + length (pcode d e) < length code ->
-    a_ip a = k -> a_ops a = [] -> Rg pins env s g ->
+    a_ip a = k -> a_cb a = cb -> a_ops a = [] -> Rg pins env s g ->
     rhs_res pins env d (k + length (pcode d e)) a g (eval fuel env e s).
   Proof.
-    intros e pins d fuel k a g env s B Hoe Hb Hd Hc Hend Hip Hops HG.
+    intros e pins d fuel k a g env s B Hoe Hb Hd Hc Hend Hip Hacb Hops HG.
     destruct (ok_expr_parts _ _ Hoe) as (Hp & Hl & Hu).
     pose proof (expr_run_ext pins e d fuel k a g env s Hp Hl
-                  ltac:(intros x Hx; destruct (Hu x Hx) as [Hs0 Hin]; split; [eapply bound_in_uname; eassumption|eapply bound_in_look; eassumption])
-                  ltac:(lia) Hc Hend Hip Hops HG) as He.
+                  ltac:(intros x Hx; destruct (Hu x Hx) as [Hs0 Hin]; eapply vsrc_of; eassumption)
+                  ltac:(lia) Hc Hend Hip Hops Hacb HG) as He.
     destruct (eval fuel env e s) as [v s1|s1|f s1|]; cbn [rhs_res]; [|contradiction| |exact Logic.I].
     - destruct He as (-> & Hfo & g1 & R1 & HG1 & He1). split; [exact Hfo|].
       exists (upd a (k + length (pcode d e)) [inj v]), g1. split; [exact R1|]. split; [reflexivity|]. split; [reflexivity|].
@@ -1239,7 +1328,7 @@ Section Sim.
     end.
 
   Lemma args_run : forall args, Forall rhs_spec args -> forall k0 pos pins a g env s B acc fuel,
-    fuel <= FU -> ok_cexprs FT SP B args = true -> bound_in B env ->
+    fuel <= FU -> ok_cexprs FT SP (B ++ CD) args = true -> bound_in B env ->
     k0 + length (argcode k0 args) <= c + length code + 2 ->
     code_at code pos (argcode k0 args) -> pos + length (argcode k0 args) < length code ->
     a_ip a = pos -> a_cb a = cb -> a_ops a = [] -> Rg pins env s g ->
@@ -1343,6 +1432,18 @@ Section Sim.
     - intros c0 v Hq. exact (proj1 (H2 c0 v Hq)).
   Qed.
 
+  Lemma Rg_drel : forall pins env s g dn, Rg pins env s g -> (forall p, In p dn -> dpair_ok p) -> drel dn s g.
+  Proof.
+    intros pins env s g dn HG Hd c0 c0' Hin. destruct (Hd _ Hin) as [[x Hx]|(v & Hfo & Hs & Hv)]; cbn [fst snd] in *.
+    - pose proof (Hdtab _ _ Hx) as Hun.
+      assert (Hl : 0 < length (locals env)) by (destruct (locals env) eqn:E; [exact (False_ind _ (Rg_ne _ _ _ HG E))|cbn; lia]).
+      destruct (Rg_dlook _ _ _ HG x c0 c0' Hx 0 Hl) as [H1 H2]. cbn [skipn] in H1, H2. rewrite app_nil_r in H1.
+      unfold lookup_fs in H2.
+      destruct (Rg_lookup env s g x HG Hun ltac:(congruence)) as (d0 & d0' & v & E1 & E2 & _ & E3 & Hfo & E4).
+      rewrite E2 in H2. exists v. split; [exact Hfo|]. split; congruence.
+    - destruct (Rg_fpin _ _ _ HG) as [F1 F2]. exists v. split; [exact Hfo|]. split; [exact (proj1 (F2 _ _ Hs))|exact (proj1 (F1 _ _ Hv))].
+  Qed.
+
   Lemma dec_call : decode (mkI OP_CALL []) = DOk (DCall None).
   Proof. reflexivity. Qed.
   Lemma exec_call : forall a g o loc cbf, a_ops a = o ++ [VFun loc cbf] ->
@@ -1426,8 +1527,8 @@ Section Sim.
   Lemma rhs_spec_pure : forall e, (forall B, ok_rhs FT SP B e = true -> ok_expr B e = true) -> rhs_spec e.
   Proof.
     intros e He pins d fuel k a g env s B Hfu Hok Hb Hd Hc Hend Hip Hcb Hops HG.
-    pose proof (He B Hok) as Hoe. destruct (ok_expr_parts _ _ Hoe) as (Hp & _ & _). rewrite (xcode_pure d e Hp) in *.
-    exact (rhs_pure e pins d fuel k a g env s B Hoe Hb Hd Hc Hend Hip Hops HG).
+    pose proof (He _ Hok) as Hoe. destruct (ok_expr_parts _ _ Hoe) as (Hp & _ & _). rewrite (xcode_pure d e Hp) in *.
+    exact (rhs_pure e pins d fuel k a g env s B Hoe Hb Hd Hc Hend Hip Hcb Hops HG).
   Qed.
   Ltac pure_only := apply rhs_spec_pure; intros B0 H0; unfold ok_rhs in H0; rewrite ok_cexpr_eq in H0;
                     apply Bool.orb_true_iff in H0 as [H0|H0]; [exact H0|discriminate H0].
@@ -1439,8 +1540,8 @@ Section Sim.
     intros p ea eb IHa IHb pins d fuel k a g env s B Hfu Hok Hb Hd Hc Hend Hip Hcb Hops HG.
     unfold ok_rhs in Hok. rewrite ok_cexpr_eq in Hok. apply Bool.orb_true_iff in Hok as [Hoe|Hoc].
     { destruct (ok_expr_parts _ _ Hoe) as (Hp & _ & _). rewrite (xcode_pure d _ Hp) in *.
-      exact (rhs_pure _ pins d fuel k a g env s B Hoe Hb Hd Hc Hend Hip Hops HG). }
-    assert (Hparts : is_call ea = false /\ is_call eb = false /\ ok_cexpr FT SP B ea = true /\ ok_cexpr FT SP B eb = true).
+      exact (rhs_pure _ pins d fuel k a g env s B Hoe Hb Hd Hc Hend Hip Hcb Hops HG). }
+    assert (Hparts : is_call ea = false /\ is_call eb = false /\ ok_cexpr FT SP (B ++ CD) ea = true /\ ok_cexpr FT SP (B ++ CD) eb = true).
     { destruct p; rewrite !Bool.andb_true_iff, !Bool.negb_true_iff in Hoc; tauto. }
     destruct Hparts as (Hca & Hcb' & Hoa & Hob). clear Hoc.
     destruct fuel as [|fuel]; [destruct p; exact Logic.I|].
@@ -1468,7 +1569,7 @@ Section Sim.
     { destruct p; [rewrite eval_EOr|rewrite eval_EAnd]; destruct (eval fuel env ea s) as [[?|[|]|?| |? ? ?] s1|s1|f s1|]; reflexivity. }
     rewrite Eev. clear Eev.
     destruct (eval fuel env ea s) as [va s1|s1|f s1|] eqn:Eea; cbn [rhs_res] in Ha |- *.
-    2:{ exfalso. exact (operand_noval B ea Hoa Hca _ _ _ _ Eea). }
+    2:{ exfalso. exact (operand_noval _ ea Hoa Hca _ _ _ _ Eea). }
     2:{ exact Ha. }
     2:{ exact Logic.I. }
     destruct Ha as (Hfoa & a1 & g1 & R1 & Hip1 & Hops1 & HG1 & Hf1 & Ha1 & Hss1 & Hlk1 & Hrk1).
@@ -1500,7 +1601,7 @@ Section Sim.
                   ltac:(cbn [a2 upd set_ip set_ops a_cb]; rewrite (proj2 (proj2 Ha1)); exact Hcb) eq_refl HG2) as Hbr.
     unfold xcode in Hbr. fold lb in Hbr.
     destruct (eval fuel env eb s1) as [vb s2|s2|f s2|] eqn:Eeb; cbn [rhs_res] in Hbr |- *.
-    2:{ exfalso. exact (operand_noval B eb Hob Hcb' _ _ _ _ Eeb). }
+    2:{ exfalso. exact (operand_noval _ eb Hob Hcb' _ _ _ _ Eeb). }
     2:{ eapply fail_post_map; [|exact Hbr]. intros (e0 & g' & Hf & Hr). exists e0, g'.
         split; [eapply xrun_fail; [exact R1|eapply xrun_fail; [exact R2|exact Hf]]|exact Hr]. }
     2:{ exact Logic.I. }
@@ -1550,7 +1651,7 @@ Section Sim.
       intros o ea eb IHa IHb pins d fuel k a g env s B Hfu Hok Hb Hd Hc Hend Hip Hcb Hops HG.
       unfold ok_rhs in Hok. rewrite ok_cexpr_eq in Hok. apply Bool.orb_true_iff in Hok as [Hoe|Hoc].
       { destruct (ok_expr_parts _ _ Hoe) as (Hp & _ & _). rewrite (xcode_pure d _ Hp) in *.
-        exact (rhs_pure _ pins d fuel k a g env s B Hoe Hb Hd Hc Hend Hip Hops HG). }
+        exact (rhs_pure _ pins d fuel k a g env s B Hoe Hb Hd Hc Hend Hip Hcb Hops HG). }
       apply Bool.andb_true_iff in Hoc as [Hoa Hob].
       destruct fuel as [|fuel]; [exact Logic.I|]. rewrite eval_EBin.
       unfold xcode in *. cbn [ccode] in *. rewrite !app_length in *. cbn [length] in *.
@@ -1608,7 +1709,7 @@ Section Sim.
       intros ea IHa pins d fuel k a g env s B Hfu Hok Hb Hd Hc Hend Hip Hcb Hops HG.
       unfold ok_rhs in Hok. rewrite ok_cexpr_eq in Hok. apply Bool.orb_true_iff in Hok as [Hoe|Hoc].
       { destruct (ok_expr_parts _ _ Hoe) as (Hp & _ & _). rewrite (xcode_pure d _ Hp) in *.
-        exact (rhs_pure _ pins d fuel k a g env s B Hoe Hb Hd Hc Hend Hip Hops HG). }
+        exact (rhs_pure _ pins d fuel k a g env s B Hoe Hb Hd Hc Hend Hip Hcb Hops HG). }
       apply Bool.andb_true_iff in Hoc as [Hca Hoa]. apply Bool.negb_true_iff in Hca.
       destruct fuel as [|fuel]; [exact Logic.I|]. rewrite eval_ENot.
       unfold xcode in *. cbn [ccode] in *. rewrite !app_length in *. cbn [length] in *.
@@ -1617,7 +1718,7 @@ Section Sim.
       pose proof (IHa pins (S d) fuel k a g env s B ltac:(lia) Hoa Hb ltac:(unfold xcode; fold la; lia) Hca' ltac:(unfold xcode; fold la; lia) Hip Hcb Hops HG) as Ha.
       unfold xcode in Ha. fold la in Ha.
       destruct (eval fuel env ea s) as [va s1|s1|f s1|] eqn:Eea; cbn [rhs_res] in Ha |- *.
-      2:{ exfalso. exact (operand_noval B ea Hoa Hca _ _ _ _ Eea). }
+      2:{ exfalso. exact (operand_noval _ ea Hoa Hca _ _ _ _ Eea). }
       2:{ exact Ha. }
       2:{ exact Logic.I. }
       destruct Ha as (Hfoa & a1 & g1 & R1 & Hip1 & Hops1 & HG1 & Hf1 & Ha1 & Hss1 & Hlk1 & Hrk1).
@@ -1638,7 +1739,7 @@ Section Sim.
       intros ea IHa pins d fuel k a g env s B Hfu Hok Hb Hd Hc Hend Hip Hcb Hops HG.
       unfold ok_rhs in Hok. rewrite ok_cexpr_eq in Hok. apply Bool.orb_true_iff in Hok as [Hoe|Hoc].
       { destruct (ok_expr_parts _ _ Hoe) as (Hp & _ & _). rewrite (xcode_pure d _ Hp) in *.
-        exact (rhs_pure _ pins d fuel k a g env s B Hoe Hb Hd Hc Hend Hip Hops HG). }
+        exact (rhs_pure _ pins d fuel k a g env s B Hoe Hb Hd Hc Hend Hip Hcb Hops HG). }
       apply Bool.andb_true_iff in Hoc as [Hca Hoa]. apply Bool.negb_true_iff in Hca.
       destruct fuel as [|fuel]; [exact Logic.I|]. rewrite eval_ENeg.
       unfold xcode in *. cbn [ccode] in *. rewrite !app_length in *. cbn [length] in *.
@@ -1647,7 +1748,7 @@ Section Sim.
       pose proof (IHa pins (S d) fuel k a g env s B ltac:(lia) Hoa Hb ltac:(unfold xcode; fold la; lia) Hca' ltac:(unfold xcode; fold la; lia) Hip Hcb Hops HG) as Ha.
       unfold xcode in Ha. fold la in Ha.
       destruct (eval fuel env ea s) as [va s1|s1|f s1|] eqn:Eea; cbn [rhs_res] in Ha |- *.
-      2:{ exfalso. exact (operand_noval B ea Hoa Hca _ _ _ _ Eea). }
+      2:{ exfalso. exact (operand_noval _ ea Hoa Hca _ _ _ _ Eea). }
       2:{ exact Ha. }
       2:{ exact Logic.I. }
       destruct Ha as (Hfoa & a1 & g1 & R1 & Hip1 & Hops1 & HG1 & Hf1 & Ha1 & Hss1 & Hlk1 & Hrk1).
@@ -1750,7 +1851,8 @@ Section Sim.
         repeat split; assumption. }
       (* the callee *)
       pose proof (Hcall (S fuel) ltac:(lia) f ps body c0 c0' cenv cbf Eft Efc vs s1 g5t Hfos ltac:(congruence)
-                    (Rg_out _ _ _ HG5t) (Rg_nd _ _ _ HG5t) (Rg_fvals _ _ _ _ HG5t)) as Hcal.
+                    (Rg_out _ _ _ HG5t) (Rg_nd _ _ _ HG5t) (Rg_fvals _ _ _ _ HG5t)
+                    (Rg_drel _ _ _ _ _ HG5t (fun p Hp => Hdn f p ltac:(apply Hfck; congruence) Hp))) as Hcal.
       destruct (call_clos_ (S fuel) (RClos ps body cenv) vs s1) as [v s2|s2|fl s2|]; cbn [rhs_res]; [| | |exact Logic.I].
       + destruct Hcal as (Hfov & fuel' & g6 & Hrun & Hkeep). split; [exact Hfov|].
         exists (next_act (set_ops a5 []) (Some (inj v))), g6. split; [|split; [|split; [|split; [|split; [|split; [|split; [|split]]]]]]].
@@ -1822,7 +1924,7 @@ Section Sim.
       assert (Hact4 : act_same a a4 /\ a_ss a4 = a_ss a).
       { destruct Ha3 as (B1 & B2 & B3). cbn [a4 upd set_ip set_ops a_fn a_args a_cb a_ss] in *. repeat split; assumption. }
       pose proof (Hself fuel ltac:(lia) ps body cenv Eself vs s1 g4t Hfos ltac:(congruence)
-                    (Rg_out _ _ _ HG4t) (Rg_nd _ _ _ HG4t) (Rg_fvals _ _ _ _ HG4t)) as Hcal.
+                    (Rg_out _ _ _ HG4t) (Rg_nd _ _ _ HG4t) (Rg_fvals _ _ _ _ HG4t) (Rg_drel _ _ _ _ _ HG4t Hsdn)) as Hcal.
       destruct (call_clos_ fuel (RClos ps body cenv) vs s1) as [v s2|s2|fl s2|]; cbn [rhs_res]; [| | |exact Logic.I].
       + destruct Hcal as (Hfov & fuel' & g6 & Hrun & Hkeep). split; [exact Hfov|].
         exists (next_act (set_ops a4 []) (Some (inj v))), g6. split; [|split; [|split; [|split; [|split; [|split; [|split; [|split]]]]]]].
@@ -2161,7 +2263,7 @@ Section Sim.
   Lemma lc_ok_m : forall il sl bt ct env hi, lc_ok il sl bt ct env hi -> forall m, sl = Some m -> 1 <= m.
   Proof. intros il sl bt ct env hi [_ H] m E. exact (proj1 (H m E)). Qed.
 
-  Lemma sitems_pos : forall il B lr sl st, ok_stmt FT SP il B st = true -> 1 <= length (sitems c lr sl st).
+  Lemma sitems_pos : forall il B lr sl st, ok_stmt FT SP CD il B st = true -> 1 <= length (sitems c lr sl st).
   Proof.
     intros il B lr sl st H. destruct st; try discriminate.
     all: try (rewrite sitems_SFrom; cbv zeta; repeat rewrite app_length; cbn [length]; lia).
@@ -2238,7 +2340,7 @@ Section Sim.
   (* the machine has just pushed the block frame (if_stmt / else_stmt); body, then `done` *)
   Lemma in_block_run : forall body, block_spec body ->
     forall pins lr il sl bt ct fuel kb a g env s B lb, fuel <= FU -> lr <= 2 * kb ->
-      ok_block FT SP il B body = true -> bound_in B env ->
+      ok_block FT SP CD il B body = true -> bound_in B env ->
       items_at bt ct kb (bitems c lr (option_map S sl) body ++ [I OP_DONE []]) ->
       kb + length (bitems c lr (option_map S sl) body) + 1 < length code ->
       lc_ok il sl bt ct env (kb + length (bitems c lr (option_map S sl) body) + 1) ->
@@ -2792,16 +2894,23 @@ Section Sim.
   Proof. intros B [e|] H; [exact H|reflexivity]. Qed.
 
   (* agreement of the variables of an expression between two related views of the scopes *)
-  Lemma agree_of : forall pins env s g env' s' e B, Rg pins env s g -> ok_expr B e = true -> bound_in B env ->
-    (forall y c0, In y B -> lookup_scopes y (locals env) = Some c0 -> lookup_scopes y (locals env') = Some c0) ->
+  Lemma assign_captured : forall env s x v env' s', assign env s x v = (env', s') -> captured env' = captured env.
+  Proof.
+    intros env s x v env' s' H. unfold assign in H. destruct (lookup_scopes x (locals env)); [inversion H; reflexivity|].
+    unfold declare, alloc in H. destruct (locals env); inversion H; reflexivity.
+  Qed.
+
+  Lemma agree_of : forall pins env s g env' s' e B, Rg pins env s g -> ok_expr (B ++ CD) e = true -> bound_in B env ->
+    captured env' = captured env ->
+    (forall y, In y (used_e e) -> lookup_scopes y (locals env') = lookup_scopes y (locals env)) ->
     (forall c0 v, sget s c0 = Some v -> sget s' c0 = Some v) ->
     forall y, In y (used_e e) -> agree env s env' s' y.
   Proof.
-    intros pins env s g env' s' e B HG Hok Hb Hl Hs y Hy.
+    intros pins env s g env' s' e B HG Hok Hb Hc Hl Hs y Hy.
     apply ok_expr_parts in Hok as (_ & _ & Hu). destruct (Hu y Hy) as [Hun Hin].
-    destruct (Rg_lookup _ _ _ _ HG (bound_in_uname _ _ _ Hb Hun Hin) (bound_in_look _ _ _ Hb Hin)) as (c0 & c0' & v & E1 & _ & _ & E2 & _).
-    exists c0, c0, v. split; [now apply lookup_app_some|]. split; [exact E2|].
-    split; [apply lookup_app_some; now apply Hl|now apply Hs].
+    destruct (vsrc_lookup pins env s g y HG (vsrc_of B env y Hb Hun Hin)) as (c0 & v & E1 & _ & E3 & _).
+    exists c0, c0, v. split; [exact E1|]. split; [exact E3|]. split; [|now apply Hs].
+    rewrite lookup_app_split, Hc, (Hl y Hy), <- lookup_app_split. exact E1.
   Qed.
 
   (* ================================================================ hidden counters (anonymous from loops): the counter lives
@@ -2820,7 +2929,7 @@ Section Sim.
     Rg pins {| locals := sc' :: l; captured := captured env; cur := cur env |} s
        (with_frames g ({| lab := lab f; vars := vs |} :: fs)).
   Proof.
-    intros pins [l0 cap cu] [st ro] [cs fs0 o tr] sc l f fs sc' vs [Hfr Hb Ho Hbase Hun Hns Hpins Hnd Hfp Hfl Hcur Hcf] El Ef Hsc Hvs Hndv.
+    intros pins [l0 cap cu] [st ro] [cs fs0 o tr] sc l f fs sc' vs [Hfr Hb Ho Hbase Hun Hns Hpins Hnd Hfp Hfl Hcur Hcf Hcapd Hdl] El Ef Hsc Hvs Hndv.
     cbn [locals captured cur store rout cells frames out trace with_frames] in *. subst l0 fs0.
     set (f' := {| lab := lab f; vars := vs |}).
     assert (Hs : forall x, uname x -> assoc x sc' = assoc x sc) by (intros x Hx; apply Hsc; exact (uname_not_hid _ Hx)).
@@ -2841,6 +2950,9 @@ Section Sim.
       assert (Hin : In f0 funs) by (apply Hfck; congruence). pose proof (Hfun0 f0 Hin) as H0.
       eapply flook_top; [exact Hfl|apply Hsc; exact (proj2 (proj2 H0))|].
       cbn [find_in_function f' vars lab]. now rewrite (Hvs f0 H0).
+    - intros x0 c0 c0' Hin. specialize (Hdl x0 c0 c0' Hin). pose proof (proj1 (Hdtab _ _ Hin)) as H0.
+      eapply flook_top; [exact Hdl|apply Hsc; exact (proj2 (proj2 H0))|].
+      cbn [find_in_function f' vars lab]. now rewrite (Hvs x0 H0).
   Qed.
 
   Definition add_spin (P : pinset) (c0 : N) (v : rvalue) : pinset :=
@@ -2910,13 +3022,14 @@ Section Sim.
     destruct fuel as [|fuel]; [exact Logic.I|].
     rewrite ok_SFrom in Hok. rewrite !Bool.andb_true_iff in Hok. destruct Hok as [[Hoa Hob] Hok].
     set (Bb := if collide then B else x :: B).
-    assert (Hparts : uname x /\ (if collide then In x B /\ used_e b = [] else mem_str x B = false) /\
-                     step_ok Bb step = true /\ ok_block FT SP true Bb body = true).
+    assert (Hparts : uname x /\ (if collide then In x B /\ used_e b = [] else mem_str x B = false /\ ~ In x (used_e b)) /\
+                     step_ok Bb step = true /\ ok_block FT SP CD true Bb body = true).
     { unfold Bb. destruct collide; rewrite !Bool.andb_true_iff in Hok.
       - destruct Hok as [[[[[Hx Hxf] HxB] Hub] Hst] Hokb]. apply Bool.negb_true_iff in Hxf.
         split; [exact (uname_of_b x Hx Hxf)|]. split; [split; [now apply mem_str_In|destruct (used_e b); [reflexivity|discriminate]]|]. auto.
-      - destruct Hok as [[[[Hx Hxf] HxB] Hst] Hokb]. apply Bool.negb_true_iff in Hxf. apply Bool.negb_true_iff in HxB.
-        split; [exact (uname_of_b x Hx Hxf)|]. auto. }
+      - destruct Hok as [[[[[Hx Hxf] HxB] HxU] Hst] Hokb]. apply Bool.negb_true_iff in Hxf. apply Bool.negb_true_iff in HxB.
+        apply Bool.negb_true_iff in HxU.
+        split; [exact (uname_of_b x Hx Hxf)|]. split; [split; [exact HxB|intros Hi; apply In_mem_str in Hi; congruence]|]. auto. }
     destruct Hparts as (Hx & HxB & Hst & Hokb). clear Hok.
     apply step_ok_expr in Hst.
     rewrite sitems_SFrom in *. cbv zeta in *. cbn [from_idn from_lr1] in *. rewrite step_code_expr in *.
@@ -2974,7 +3087,7 @@ Section Sim.
     rewrite exec_SFrom. cbn [after].
     destruct fuel as [|fuel]; [exact Logic.I|].
     (* the lower bound *)
-    pose proof (expr_run pins a0 c (S fuel) k a g env s B Hoa Hb ltac:(lia) Hca ltac:(fold la; unfold fin, kd, kj, kp, ks, kb, kw, kc, k3, k1 in *; lia) Hip Hops HG) as He.
+    pose proof (expr_run pins a0 c (S fuel) k a g env s B Hoa Hb ltac:(lia) Hca ltac:(fold la; unfold fin, kd, kj, kp, ks, kb, kw, kc, k3, k1 in *; lia) Hip Hops Hacb HG) as He.
     fold la in He. fold k1 in He.
     destruct (eval (S fuel) env a0 s) as [va s1|s1|f s1|]; [|contradiction| |exact Logic.I].
     2:{ destruct He as (-> & e0 & g' & Hf & Hr & Ho). eapply post_expr_fail; eassumption. }
@@ -2983,7 +3096,7 @@ Section Sim.
     destruct (locals env) as [|sc0 l'] eqn:El; [exact (False_ind _ (Rg_ne _ _ _ HG El))|].
     destruct ((if collide then assign env s x va else declare env s x va)) as [env1 s1] eqn:Edec.
     assert (Hxn : collide = false -> lookup_scopes x (sc0 :: l') = None).
-    { intros Ec. rewrite Ec in HxB. rewrite <- El. destruct (lookup_scopes x (locals env)) eqn:E; [|reflexivity].
+    { intros Ec. rewrite Ec in HxB. destruct HxB as [HxB HxU]. rewrite <- El. destruct (lookup_scopes x (locals env)) eqn:E; [|reflexivity].
       destruct (proj1 (proj1 Hb x (uname_not_hid _ Hx)) ltac:(congruence)) as [Hin|Hin]; [|apply Hlfuns in Hin]; apply In_mem_str in Hin; [congruence|].
       exfalso. exact (uname_nfun _ Hx (mem_str_In _ _ Hin)). }
     assert (Eas : assign env s x va = (env1, s1)).
@@ -3027,15 +3140,15 @@ Section Sim.
       - eapply bound_in_eq; [exact Hb|]. fold lL. rewrite El1, El. reflexivity. }
     (* the upper bound: the reference semantics evaluates it before the counter exists; same result *)
     assert (Hagb : forall y, In y (used_e b) -> agree env s env1 s1 y).
-    { destruct Hcase as [(Ec & El1 & Es1)|(Ec & El1 & Hub)]; [|rewrite Hub; intros y []]. rewrite Ec in HxB.
-      eapply (agree_of pins env s g env1 s1 b B HG Hob); [exact Hb| |exact Es1].
-      intros y c0 Hy Hl0. rewrite El in Hl0. fold lL. rewrite El1. cbn [lookup_scopes] in Hl0 |- *.
-      rewrite assoc_set_other; [exact Hl0|]. intros ->. apply In_mem_str in Hy. congruence. }
+    { destruct Hcase as [(Ec & El1 & Es1)|(Ec & El1 & Hub)]; [|rewrite Hub; intros y []]. rewrite Ec in HxB. destruct HxB as [HxB HxU].
+      eapply (agree_of pins env s g env1 s1 b B HG Hob Hb (assign_captured _ _ _ _ _ _ Eas)); [|exact Es1].
+      intros y Hy. fold lL. rewrite El1, El. cbn [lookup_scopes].
+      rewrite assoc_set_other; [reflexivity|]. intros ->. exact (HxU Hy). }
     destruct (ok_expr_parts _ _ Hob) as (Hpb & _ & _).
     destruct (eval_pure_congr b Hpb (S fuel) env s env1 s1 Hagb) as [Hst_b Eb1].
-    assert (HobB : ok_expr Bb b = true) by (unfold Bb; destruct collide; [exact Hob|exact (ok_expr_weaken B x b Hob)]).
+    assert (HobB : ok_expr (Bb ++ CD) b = true) by (unfold Bb; destruct collide; [exact Hob|exact (ok_expr_weaken (B ++ CD) x b Hob)]).
     pose proof (expr_run pins b c (S fuel) (S k1) a2 g2 env1 s1 Bb HobB HbL1 ltac:(lia) Hcb
-                  ltac:(fold lb; unfold fin, kd, kj, kp, ks, kb, kw, kc, k3 in *; lia) eq_refl eq_refl HG2S) as Heb.
+                  ltac:(fold lb; unfold fin, kd, kj, kp, ks, kb, kw, kc, k3 in *; lia) eq_refl eq_refl Hacb HG2S) as Heb.
     rewrite Eb1 in Heb. fold lb in Heb.
     destruct (eval (S fuel) env b s) as [vb sb|sb|f sb|]; cbn [res_to res_st] in Hst_b, Heb; [|contradiction| |exact Logic.I].
     2:{ subst sb. destruct Heb as (_ & e0 & g' & Hf & Hr & Ho). rewrite Ero in Ho.
@@ -3133,7 +3246,9 @@ Section Sim.
       - cbn [set_ip a_ip]. rewrite Hip5. unfold fin, nd. rewrite Ec. lia.
       - split; [|split; [exact Hops5|]].
         + eapply (undeclare_rel pins ce (VInt hi) env5 s5 g5t x (assoc_set x cx0 sc0) l' F2 R vs);
-            [apply Rg_trc; exact HG5|exact El5'|exact Ef5|exact Hx|exact Hvs1|exact Hvs2|now rewrite Hdel0|exact Hxl'|exact Hndvs].
+            [apply Rg_trc; exact HG5|exact El5'|exact Ef5|exact Hx|exact Hvs1|exact Hvs2|now rewrite Hdel0|exact Hxl'|exact Hndvs|].
+          intros x0 [d0 d0'] Hin ->. destruct (Rg_dlook _ _ _ HG x d0 d0' Hin 0 ltac:(rewrite El; cbn [length]; lia)) as [H1 _].
+          cbn [skipn] in H1. rewrite app_nil_r, El in H1. congruence.
         + rewrite Eu. cbn [set_ip a_ss]. rewrite El1 in Hss5. cbn [length] in *. exact Hss5.
       - repeat split.
       - reflexivity.
@@ -3236,6 +3351,8 @@ Section Sim.
           pose proof (bound_in_look _ _ _ (HbL envL ElL) Hin) as Hbd. rewrite ElL in Hbd.
           destruct (lookup_scopes y lL) as [c0|] eqn:Ey; [|congruence].
           rewrite (Hup y c0 (uname_not_hid _ (bound_in_uname _ _ _ (HbL envL ElL) Hun Hin)) Ey). discriminate. }
+        assert (Huse2v : forall y, In y (used_e se) -> vsrc env2 y).
+        { intros y Hy. destruct (Huse2 y Hy) as [Hun Hbd]. exact (vsrc_local env2 y Hun Hbd). }
         assert (Hag : forall y, In y (used_e se) -> agree (pop_scope env2) s2 env2 s2 y).
         { intros y Hy. destruct (Huse2 y Hy) as [Hun Hbd].
           destruct (Rg_lookup _ _ _ _ HGB Hun Hbd) as (c0 & c0x & v0 & F1 & _ & _ & F2' & _).
@@ -3245,8 +3362,8 @@ Section Sim.
           exists c0, c0, v0. split; [apply lookup_app_some; change (locals (pop_scope env2)) with (tl (locals env2)); rewrite Htl2; exact Ey|].
           split; [exact F2'|]. split; [now apply lookup_app_some|exact F2']. }
         destruct (eval_pure_congr se Hpse (S fuel) (pop_scope env2) s2 env2 s2 Hag) as [Hst_s Es].
-        pose proof (expr_run_gen pins' se c (S fuel) ks aB gB env2 s2 Hpse Hlse Huse2 ltac:(lia) Hcs'
-                      ltac:(fold ls; unfold fin, kd, kj, kp in *; lia) HipB HopsB HGB) as Hes.
+        pose proof (expr_run_gen pins' se c (S fuel) ks aB gB env2 s2 Hpse Hlse Huse2v ltac:(lia) Hcs'
+                      ltac:(fold ls; unfold fin, kd, kj, kp in *; lia) HipB HopsB ltac:(rewrite (proj2 (proj2 HaB)); exact HcbL) HGB) as Hes.
         rewrite Es in Hes. fold ls in Hes. fold kp in Hes.
         destruct (eval (S fuel) (pop_scope env2) se s2) as [sv s0|s0|f s0|]; cbn [res_to res_st] in Hst_s, Hes;
           [|contradiction| |exact Logic.I].
@@ -3396,7 +3513,7 @@ Section Sim.
     rewrite exec_SFrom. cbn [after].
     destruct fuel as [|fuel]; [exact Logic.I|].
     (* the lower bound *)
-    pose proof (expr_run pins a0 c (S fuel) k a g env s B Hoa Hb ltac:(lia) Hca ltac:(fold la; unfold fin, kd, kj, kp, ks, kb, kw, kc, k3, k1 in *; lia) Hip Hops HG) as He.
+    pose proof (expr_run pins a0 c (S fuel) k a g env s B Hoa Hb ltac:(lia) Hca ltac:(fold la; unfold fin, kd, kj, kp, ks, kb, kw, kc, k3, k1 in *; lia) Hip Hops Hacb HG) as He.
     fold la in He. fold k1 in He.
     destruct (eval (S fuel) env a0 s) as [va s1|s1|f s1|]; [|contradiction| |exact Logic.I].
     2:{ destruct He as (-> & e0 & g' & Hf & Hr & Ho). eapply post_expr_fail; eassumption. }
@@ -3449,13 +3566,13 @@ Section Sim.
     (* the upper bound: the reference semantics evaluates it before the counter exists; same result *)
     destruct (ok_expr_parts _ _ Hob) as (Hpb & Hlb & Hub).
     assert (Hagb : forall y, In y (used_e b) -> agree env s env1 s1 y).
-    { eapply (agree_of pins env s g env1 s1 b B HG Hob); [exact Hb| |exact Es1].
-      intros y c0 Hy Hl0. rewrite El in Hl0. cbn [env1 locals lL lookup_scopes] in *.
-      rewrite assoc_set_other; [exact Hl0|]. intros ->. exact (proj2 (proj2 Hb hid Hy) eq_refl). }
+    { eapply (agree_of pins env s g env1 s1 b B HG Hob Hb eq_refl); [|exact Es1].
+      intros y Hy. rewrite El. cbn [env1 locals lL lookup_scopes].
+      rewrite assoc_set_other; [reflexivity|]. intros ->. destruct (Hub hid Hy) as [[_ [_ Hh]] _]. exact (Hh eq_refl). }
     destruct (eval_pure_congr b Hpb (S fuel) env s env1 s1 Hagb) as [Hst_b Eb1].
     pose proof (expr_run_ext pins2 b c (S fuel) (S k1) a2 g2 env1 s1 Hpb Hlb
-                  ltac:(intros x Hx; destruct (Hub x Hx) as [Hs0 Hin]; split; [eapply bound_in_uname; eassumption|eapply bound_in_look; eassumption])
-                  ltac:(lia) Hcb ltac:(fold lb; unfold fin, kd, kj, kp, ks, kb, kw, kc, k3 in *; lia) eq_refl eq_refl HG2) as Heb.
+                  ltac:(intros x Hx; destruct (Hub x Hx) as [Hs0 Hin]; eapply vsrc_of; eassumption)
+                  ltac:(lia) Hcb ltac:(fold lb; unfold fin, kd, kj, kp, ks, kb, kw, kc, k3 in *; lia) eq_refl eq_refl Hacb HG2) as Heb.
     rewrite Eb1 in Heb. fold lb in Heb.
     destruct (eval (S fuel) env b s) as [vb sb|sb|f sb|]; cbn [res_to res_st] in Hst_b, Heb; [|contradiction| |exact Logic.I].
     2:{ subst sb. destruct Heb as (_ & e0 & g' & Hf & Hr & Ho).
@@ -3651,6 +3768,8 @@ Section Sim.
           pose proof (bound_in_look _ _ _ (HbL envL ElL) Hin) as Hbd. rewrite ElL in Hbd.
           destruct (lookup_scopes y lL) as [c0|] eqn:Ey; [|congruence].
           rewrite (Hup y c0 (uname_not_hid _ (bound_in_uname _ _ _ (HbL envL ElL) Hun Hin)) Ey). discriminate. }
+        assert (Huse2v : forall y, In y (used_e se) -> vsrc env2 y).
+        { intros y Hy. destruct (Huse2 y Hy) as [Hun Hbd]. exact (vsrc_local env2 y Hun Hbd). }
         assert (Hag : forall y, In y (used_e se) -> agree (pop_scope env2) s2 env2 s2 y).
         { intros y Hy. destruct (Huse2 y Hy) as [Hun Hbd].
           destruct (Rg_lookup _ _ _ _ HGB Hun Hbd) as (c0 & c0x & v0 & F1' & _ & _ & F2' & _).
@@ -3660,8 +3779,8 @@ Section Sim.
           exists c0, c0, v0. split; [apply lookup_app_some; change (locals (pop_scope env2)) with (tl (locals env2)); rewrite Htl2; exact Ey|].
           split; [exact F2'|]. split; [now apply lookup_app_some|exact F2']. }
         destruct (eval_pure_congr se Hpse (S fuel) (pop_scope env2) s2 env2 s2 Hag) as [Hst_s Es].
-        pose proof (expr_run_gen (pL i) se c (S fuel) ks aB gB env2 s2 Hpse Hlse Huse2 ltac:(lia) Hcs'
-                      ltac:(fold ls; unfold fin, kd, kj, kp in *; lia) HipB HopsB HGB) as Hes.
+        pose proof (expr_run_gen (pL i) se c (S fuel) ks aB gB env2 s2 Hpse Hlse Huse2v ltac:(lia) Hcs'
+                      ltac:(fold ls; unfold fin, kd, kj, kp in *; lia) HipB HopsB ltac:(rewrite (proj2 (proj2 HaB)); exact HcbL) HGB) as Hes.
         rewrite Es in Hes. fold ls in Hes. fold kp in Hes.
         destruct (eval (S fuel) (pop_scope env2) se s2) as [sv s0|s0|f s0|]; cbn [res_to res_st] in Hst_s, Hes;
           [|contradiction| |exact Logic.I].
@@ -3811,10 +3930,10 @@ Lemma map_CI_all : forall l, Forall is_CI (map CI l).
 Proof. induction l; cbn [map]; constructor; [exact Logic.I|assumption]. Qed.
 
 Definition ci_spec (c : nat) (st : stmt) : Prop :=
-  forall B lr sl, ok_stmt FT SP false B st = true -> Forall is_CI (sitems c lr sl st).
+  forall B lr sl, ok_stmt FT SP CD false B st = true -> Forall is_CI (sitems c lr sl st).
 
 Lemma bitems_CI : forall c l, Forall (ci_spec c) l ->
-  forall B lr sl, ok_block FT SP false B l = true -> Forall is_CI (bitems c lr sl l).
+  forall B lr sl, ok_block FT SP CD false B l = true -> Forall is_CI (bitems c lr sl l).
 Proof.
   intros c. induction l as [|st l IH]; intros HF B lr sl Hok; [constructor|].
   cbn [ok_block] in Hok. apply Bool.andb_true_iff in Hok as [H1 H2]. cbn [bitems].
@@ -3849,7 +3968,7 @@ Proof.
   - intros [e|] _ B lr sl H; [|discriminate]. cbn [sitems]. ci_tac.
 Qed.
 
-Lemma bitems_all_CI : forall c l B lr sl, ok_block FT SP false B l = true -> Forall is_CI (bitems c lr sl l).
+Lemma bitems_all_CI : forall c l B lr sl, ok_block FT SP CD false B l = true -> Forall is_CI (bitems c lr sl l).
 Proof. intros c l. apply bitems_CI. apply Forall_forall. intros st _. apply sitems_CI. Qed.
 
 Lemma CI_strip : forall its, Forall is_CI its -> map CI (strip its) = its.
@@ -3871,7 +3990,7 @@ Qed.
 Section Top.
 Variable path : str.
 
-Theorem cblock_correct : forall l B, ok_block FT SP false B l = true ->
+Theorem cblock_correct : forall l B, ok_block FT SP CD false B l = true ->
   forall c st pins prog name pre post_ a g env s fuel,
   let mid := strip (fst (cblockT path c None l st)) in
   let code := pre ++ mid ++ post_ in
@@ -3896,7 +4015,7 @@ Theorem cblock_correct : forall l B, ok_block FT SP false B l = true ->
 Proof.
   intros l B Hok c st pins prog name pre post_ a g env s fuel mid code fin Hpost Hsm Hlr Hip Hcb HR Hb Hcall Hself.
   pose proof (bitems_all_CI c l B (lreg st) None Hok) as HCI.
-  assert (Emid : mid = strip (bitems c (lreg st) None l)) by (unfold mid; now rewrite (cblockT_ok path c l FT SP false B None st Hok)).
+  assert (Emid : mid = strip (bitems c (lreg st) None l)) by (unfold mid; now rewrite (cblockT_ok path c l FT SP CD false B None st Hok)).
   assert (Elen : length mid = length (bitems c (lreg st) None l)) by (rewrite Emid; now apply strip_CI_length).
   pose proof (block_sim prog name code c Hsm fuel Hcall Hself l pins (lreg st) false None 0 0 fuel (length pre) a g env s B (le_n _) Hlr Hok Hb) as H.
   rewrite <- Elen in H. fold fin in H.
@@ -3924,7 +4043,7 @@ Arguments Rst : clear implicits.
 
 (* ================================================================ whole modules: Eval.run vs Model.execute *)
 Lemma Rst_init : forall name,
-  Rst [] [] [] [] None None name no_pins no_pins {| locals := [[]]; captured := []; cur := None |} {| store := []; rout := [] |}
+  Rst [] [] [] [] None None name no_pins [] [] no_pins {| locals := [[]]; captured := []; cur := None |} {| store := []; rout := [] |}
       (act0 name [] None) (push_frame g0 (LFun name)).
 Proof.
   intros name. split; [|split; [reflexivity|cbn; lia]].
@@ -3937,6 +4056,8 @@ Proof.
   - repeat constructor.
   - split; intros ? ? [].
   - intros f c0 c0' cenv cbf E. discriminate.
+  - intros x c0 E. discriminate.
+  - intros x c0 c0' [].
 Qed.
 
 Section Program.
@@ -3951,9 +4072,9 @@ Qed.
 Definition ret_mod : instr := {| op := OP_RET_MOD; args := [] |}.
 Definition module_code (p : source) : list instr := strip (bitems 0 0 None p) ++ [ret_mod].
 
-Lemma cprogram_frag : forall p, ok_block [] None false [] p = true -> cprogram path p = [(s_module_fn path, module_code p)].
+Lemma cprogram_frag : forall p, ok_block [] None [] false [] p = true -> cprogram path p = [(s_module_fn path, module_code p)].
 Proof.
-  intros p H. unfold cprogram. rewrite cblock0_eq, (cblockT_ok path 0 p [] None false [] None _ H). reflexivity.
+  intros p H. unfold cprogram. rewrite cblock0_eq, (cblockT_ok path 0 p [] None [] false [] None _ H). reflexivity.
 Qed.
 
 Definition vm_outcome_ok (r : routcome) (o : outcome) : Prop :=
@@ -3970,7 +4091,7 @@ Definition vm_outcome_ok (r : routcome) (o : outcome) : Prop :=
 Definition no_claim (r : routcome) : Prop :=
   match r with ROFail f => f = FType 13%N \/ f = FType 3%N | _ => False end.
 
-Theorem module_correct : forall p, ok_block [] None false [] p = true -> small (2 * length (module_code p) + 8) ->
+Theorem module_correct : forall p, ok_block [] None [] false [] p = true -> small (2 * length (module_code p) + 8) ->
   forall fuel, snd (run fuel p) <> ROFuel -> no_claim (snd (run fuel p)) \/
   exists fuel', fst (fst (execute fuel' (cprogram path p) (s_module_fn path))) = fst (run fuel p) /\
                 vm_outcome_ok (snd (run fuel p)) (snd (fst (execute fuel' (cprogram path p) (s_module_fn path)))).
@@ -3981,10 +4102,12 @@ Proof.
   pose proof (cblock_correct [] [] [] [] (fun f => f) None ltac:(intros f []) ltac:(intros f []) ltac:(intros f; cbn; split; [intros []|congruence])
                 None None name ltac:(intros ps E; discriminate) no_pins ltac:(intros f c0 c0' cenv cbf E; discriminate)
                 ltac:(intros f c0 c0' cenv cbf ps body E; discriminate)
+                [] ltac:(intros x c0 E; discriminate) [] ltac:(intros x cc [])
+                (fun _ => []) [] ltac:(intros f p0 []) ltac:(intros p0 [])
                 path p [] Hok 0 {| fid := 0; lreg := 0; fbuf := [] |} no_pins P name [] [ret_mod]
                 (act0 name [] None) (push_frame g0 (LFun name))
                 {| locals := [[]]; captured := []; cur := None |} {| store := []; rout := [] |} fuel) as H.
-  cbv zeta in H. rewrite (cblockT_ok path 0 p [] None false [] None _ Hok) in H. cbn [fst app length Nat.add lreg] in H.
+  cbv zeta in H. rewrite (cblockT_ok path 0 p [] None [] false [] None _ Hok) in H. cbn [fst app length Nat.add lreg] in H.
   fold (module_code p) in H.
   specialize (H ltac:(left; discriminate) Hsm (le_n _) eq_refl eq_refl (Rst_init name) ltac:(split; [intros x _; cbn; split; [congruence|intros [[]|[]]]|intros x []])
                 ltac:(intros fuel' _ f ps body c0 c0' cenv cbf E; discriminate)
@@ -3997,7 +4120,7 @@ Proof.
   - destruct sig as [| | |[v|]]; try contradiction.
     2:{ (* a `return` at module level ends the module *)
       destruct H as (env'' & a' & g' & Hn & Hi & Hops & Hfo & HG & Ha).
-      pose proof (Rg_drop _ _ _ _ _ _ _ _ _ _ _ HG) as Hdrop.
+      pose proof (Rg_drop _ _ _ _ _ _ _ _ _ _ _ _ _ HG) as Hdrop.
       destruct (xrun_loop _ _ _ _ _ _ _ Hn) as (N & n & Hloop).
       set (f0 := Nat.max N (n + 1)).
       set (gf := with_frames (add_trace g' (name, N.of_nat (a_ip a'), op (mkI OP_RET []), N.of_nat (length (frames g')),
@@ -4012,11 +4135,11 @@ Proof.
         cbn [loop]. rewrite Hi. unfold Model.exec. change (decode (mkI OP_RET [])) with (DOk DRet). cbn [exec_d].
         rewrite Hops. cbn [add_trace frames]. rewrite Hdrop. reflexivity. }
       right. exists (S f0). unfold execute. fold P. rewrite Hrun. cbn [fst snd gf with_frames frames out add_trace].
-      split; [exact (Rg_out _ _ _ _ _ _ _ _ _ _ _ HG)|exact Logic.I]. }
+      split; [exact (Rg_out _ _ _ _ _ _ _ _ _ _ _ _ _ HG)|exact Logic.I]. }
     destruct H as (a' & g' & Hn & Hip & (HG & Hops & Hss) & Ha & Hd).
     destruct Hd as (Hd & HB' & _). pose proof (same_tl_length {| locals := [[]]; captured := []; cur := None |} env' ltac:(cbn; discriminate) Hd) as Hl. cbn [locals length] in Hl.
-    pose proof (Rg_base _ _ _ _ _ _ _ _ _ _ _ HG) as Hbase. rewrite Hl in Hbase.
-    pose proof (Rg_fr _ _ _ _ _ _ _ _ _ _ _ HG) as Hfr.
+    pose proof (Rg_base _ _ _ _ _ _ _ _ _ _ _ _ _ HG) as Hbase. rewrite Hl in Hbase.
+    pose proof (Rg_fr _ _ _ _ _ _ _ _ _ _ _ _ _ HG) as Hfr.
     destruct (locals env') as [|sc [|sc' l']]; cbn [length] in Hl; try discriminate.
     destruct g' as [cs' fs' o' tr']. cbn [frames out] in *.
     destruct fs' as [|f fs]; [cbn in Hfr; contradiction|]. cbn [skipn] in Hbase. subst fs.
@@ -4036,7 +4159,7 @@ Proof.
       rewrite Hops. cbn [add_trace frames with_frames drop_to_function cells out trace]. rewrite Hsp. reflexivity. }
     destruct Hrun as [tr'' Hrun]. right.
     exists (S f0). unfold execute. fold P. rewrite Hrun. cbn [fst snd frames out].
-    split; [exact (Rg_out _ _ _ _ _ _ _ _ _ _ _ HG)|exact Logic.I].
+    split; [exact (Rg_out _ _ _ _ _ _ _ _ _ _ _ _ _ HG)|exact Logic.I].
   - apply fail_post_inv in H. destruct H as [[->| ->]|H]; [left; left; reflexivity|left; right; reflexivity|right].
     destruct H as (e & g' & Hn & Hr & Ho).
     destruct (xfail_loop _ _ _ _ _ _ _ Hn) as (N & n & Hloop).
